@@ -6,6 +6,7 @@ package harness
 
 import (
 	"fmt"
+	"math/big"
 	"strings"
 	"testing"
 	"unicode"
@@ -20,6 +21,7 @@ type c17Case struct {
 	Words      []TextPart `json:"words"`  // arguments: literal word or {expression}
 	Blanks     []int      `json:"blanks"` // blanks after "<<", between words and before ">>" (consumed in order, default 1 between words, 0 at the edges)
 	Registered bool       `json:"registered"`
+	Earlier    string     `json:"earlier,omitempty"` // a registration under the same name that the handler replaces: "", "raw", "converted"
 }
 
 func (c c17Case) source() string {
@@ -95,6 +97,15 @@ func runC17(c c17Case) Verdict {
 		}
 	}
 	if c.Registered {
+		// the handler registered under the name is the one registered last
+		switch c.Earlier {
+		case "raw":
+			dr.AddCommand(c.Name, handler("earlier-raw-"+c.Name))
+		case "converted":
+			if err := dr.ConvertAndAddCommand(c.Name, func(a, b int) { calls = append(calls, fmt.Sprintf("earlier-converted-%s(%d,%d)", c.Name, a, b)) }); err != nil {
+				return failf("ConvertAndAddCommand(func(int, int)) failed: %v", err)
+			}
+		}
 		dr.AddCommand(c.Name, handler(c.Name))
 	}
 	// decoys: a handler under "stop", under the keywords and under the built-in must never be used instead
@@ -205,6 +216,9 @@ func genC17Word(t *rapid.T) TextPart {
 		}
 		return TextPart{S: rapid.StringMatching(`[a-zA-Z_é][a-zA-Z0-9_é]{0,6}`).Draw(t, "ident")}
 	case 7:
+		if rapid.IntRange(0, 2).Draw(t, "boundary") == 0 {
+			return TextPart{S: genBoundaryDecimal(t)}
+		}
 		return TextPart{S: rapid.StringMatching(`-?[0-9]{1,4}(\.[0-9]{1,3})?`).Draw(t, "decimal")}
 	default:
 		return TextPart{E: rapid.SampledFrom([]*Expr{num("4"), bin("+", num("1"), num("2")), varRef("n"), boolean(false), varRef("b"), bin("<", varRef("n"), num("3")), str("two words"), varRef("s"),
@@ -212,10 +226,36 @@ func genC17Word(t *rapid.T) TextPart {
 	}
 }
 
+// genBoundaryDecimal: decimal literals around powers of two (where integer fast paths change behaviour), optionally with
+// a decimal point somewhere, a sign and leading zeros.
+func genBoundaryDecimal(t *rapid.T) string {
+	e := rapid.SampledFrom([]uint{8, 16, 24, 31, 32, 52, 53, 62, 63, 64, 65, 127, 128}).Draw(t, "exp")
+	k := rapid.SampledFrom([]int64{1, 1, 2, 3, 5, 10}).Draw(t, "mult")
+	d := rapid.Int64Range(-3, 40).Draw(t, "delta")
+	v := new(big.Int).Lsh(big.NewInt(k), e)
+	v.Add(v, big.NewInt(d))
+	s := v.String()
+	if rapid.IntRange(0, 3).Draw(t, "point") == 0 {
+		at := rapid.IntRange(1, len(s)).Draw(t, "at")
+		if at == len(s) {
+			s += ".0"
+		} else {
+			s = s[:at] + "." + s[at:]
+		}
+	}
+	if rapid.IntRange(0, 4).Draw(t, "zeros") == 0 {
+		s = "00" + s
+	}
+	if rapid.IntRange(0, 3).Draw(t, "sign") == 0 {
+		s = "-" + s
+	}
+	return s
+}
+
 var c17Args = Register(Prop[c17Case]{
 	ID: "C17", Name: "arguments",
 	Gen: func(t *rapid.T) c17Case {
-		c := c17Case{Registered: rapid.IntRange(0, 7).Draw(t, "registered") != 0}
+		c := c17Case{Registered: rapid.IntRange(0, 7).Draw(t, "registered") != 0, Earlier: rapid.SampledFrom([]string{"", "", "", "raw", "converted"}).Draw(t, "earlier")}
 		switch rapid.IntRange(0, 11).Draw(t, "namekind") {
 		case 0:
 			c.Name = "stop"
